@@ -20,4 +20,4 @@ for id in "$@"; do
   v=$(grep -c '^VIOLATION' "$root/run-$bin.log")
   echo "MUTANT $name $id: exit=$rc violations=$v $(grep -m1 -B1 '^VIOLATION' "$root/run-$bin.log" | head -1 | cut -c1-160)"
 done
-rm -rf "$root/repo" "$root/h"
+[ -n "${KEEP:-}" ] || rm -rf "$root/repo" "$root/h"
